@@ -94,8 +94,11 @@ CHECKS = {
         "are not modelled."),
   note=TB + "The filesystem enters the model as the set of directories that contain a gleam.toml.", ref="5.C17, 4.7"),
  "C15": dict(
-  technique="Lean 4 proof on the message-level model M-server (step_total etc.) + message-by-message tie with the real binary over stdio",
-  text=("On the model of the document handling of server.rs (didOpen / didChange with its per-change error path / didClose / position conversion "
+  technique="Lean 4 proof on the message-level model M-server (step_total etc.) + message-by-message tie with the real binary over stdio; M-vfs-ids (FileId allocation of the document store) refined to a map, tied to the real Vfs by op histories",
+  text=("M-vfs-ids (Props/C15Ids.lean): Vfs::set_path_content / remove_uri over a slab with a vacant chain and the path<->id table; for EVERY history reachable_inv (ids of loaded paths are distinct occupied slots), "
+        "set_lookup_other / remove_lookup_other (an operation on one path leaves id and content of every other path untouched - no aliasing), refines_map (what the store holds for a path is what a map path -> content holds), "
+        "ids_injective; tied by 2000 (thorough 40000) random histories run on the real Vfs (hooks remove_path / file_id_for_path) and on the model, ids and final table compared literally. "
+        "On the model of the document handling of server.rs (didOpen / didChange with its per-change error path / didClose / position conversion "
         "of requests): fromPos_never_panics, applyChange_never_panics, step_total (no message crashes the server from any normalised store below "
         "the u32 size limit), step_normal, one_answer_per_request, unappliable_dropped (after a didChange the document is the result of ALL its "
         "changes or absent); session layer (which documents the editor holds open - didOpen / didClose; one FileEvent of didChangeWatchedFiles "
